@@ -170,6 +170,9 @@ class AxisEval:
             if e.id in self.env:
                 return self.env[e.id]
             raise Unknown("name %s" % e.id)
+        if isinstance(e, ast.IfExp) and hasattr(self, "py") and hasattr(self, "_truth"):
+            # the evaluators that know Python values decide the test; the layout is the chosen arm's
+            return self.ev(e.body if self._truth(self.py(e.test)) else e.orelse)
         if isinstance(e, ast.UnaryOp):
             return self.ev(e.operand)
         if isinstance(e, ast.BinOp):
